@@ -257,8 +257,8 @@ def run_arithmetic(acc):
 def gen_notations():
     """(string, expected value, expected error, unit or None)"""
     out = []
-    vals = ["1.0", "-2.5", "1234.5", "0.12"]
-    errs = ["0.1", "3.0", "0.05"]
+    vals = ["1.0", "-2.5", "1234.5", "0.12", "0.0", "0", "nan"]
+    errs = ["0.1", "3.0", "0.05", "0", "0.0", "nan"]
     exps = ["", "e3", "e-3", "e+03", "e-03", "E2"]
     for v, e in itertools.product(vals, errs):
         for pm in ("+/-", "±"):
@@ -273,9 +273,10 @@ def gen_notations():
                         p = float("1" + ex.lower())
                         if ex[0] == "e":  # after a parenthesis the tokenizer's grammar has a lower-case e only
                             out.append((f"({v}{sp}{pm}{sp}{e}){ex}{us}", float(v) * p, float(e) * p, unit))
-                        out.append((f"{v}{ex}{sp}{pm}{sp}{e}{ex}{us}", float(v) * p, float(e) * p, unit))
+                        if "nan" not in (v, e):  # 'nane3' is not a number
+                            out.append((f"{v}{ex}{sp}{pm}{sp}{e}{ex}{us}", float(v) * p, float(e) * p, unit))
     # concise notation v(e): e in units of the last digit of v
-    for v, e in (("1.0", "1"), ("1.00", "1"), ("1.234", "5"), ("12.3", "4"), ("1.23", "45"), ("123", "4"), ("-2.50", "12"), ("0.5", "12")):
+    for v, e in (("1.0", "1"), ("1.00", "1"), ("1.234", "5"), ("12.3", "4"), ("1.23", "45"), ("123", "4"), ("-2.50", "12"), ("0.5", "12"), ("0.0", "12"), ("0", "1"), ("8.0", "0"), ("0.00", "0")):
         ndec = len(v.split(".")[1]) if "." in v else 0
         err = int(e) * 10.0 ** (-ndec)
         for ex in ("", "e-3", "e3", "e+03"):
@@ -326,7 +327,7 @@ def run_formats(acc):
     ureg = regs.default("float")
     Meas = ureg.Measurement
     ms = [Meas(1234.5, 3.0, "meter"), Meas(-2.5, 0.25, "second"), Meas(0.5, 0.25, "meter/second**2"), Meas(1.0, 0.0, "meter"), Meas(5.0, 1.0, ""), Meas(12.5, 0.5, "kilometer/hour"), Meas(2.0e6, 1.0e3, "pascal"),
-          Meas(3.0, 0.5, "1/second"), Meas(20.0, 2.0, "degC")]
+          Meas(3.0, 0.5, "1/second"), Meas(20.0, 2.0, "degC"), Meas(2e-9, 1e-5, "meter"), Meas(0.0, 1e-5, "meter"), Meas(8.0e6, 0.0, "meter"), Meas(4.0e-7, 0.0, "second")]
     specs = ["", "D", "C", "P", "H", "L", "Lx", "~", "~P", "~C", ".3f", ".2uS", "S", ".3e"]
     for m in ms:
         for spec in specs:
@@ -351,7 +352,12 @@ def run_formats(acc):
                     rs = stddev(r) if hasattr(r, "magnitude") else r.std_dev
                     ru = dict(getattr(r, "_units", {}))
                     tol = 1e-3 if spec in (".3f", ".2uS", "S", ".3e") else 1e-9
-                    ok = close(rv, before[0], tol) and (close(rs, before[1], 0.1 if spec in (".3f", ".2uS", "S", ".3e") else 1e-9)) and ru == dict(m._units)
+                    # the value is printed to the digits its error justifies: a value much smaller than its error
+                    # legitimately comes back rounded (by less than a tenth of the error); '.3f' prints 3 decimals
+                    slack = 0.06 * before[1] + (5.1e-4 if spec == ".3f" else 0.0)
+                    ok_v = close(rv, before[0], tol) or abs(rv - before[0]) <= slack
+                    ok_s = close(rs, before[1], 0.1 if spec in (".3f", ".2uS", "S", ".3e") else 1e-9) or (spec == ".3f" and abs(rs - before[1]) <= 5.1e-4)
+                    ok = ok_v and ok_s and ru == dict(m._units)
                 if not ok:
                     acc.violation(["format", spec or "default", "rendering-does-not-parse-back-to-the-same-measurement", ""], case, repr(m), [s, repr(back[1])[:100]])
             else:
@@ -398,8 +404,8 @@ MANIFEST = {
     "rejected. Conversions: all ordered pairs of 9 units (4 lengths, kelvin, degC, degF and their deltas) x 3 values x 3 errors: nominal value as the plain quantity, standard deviation times the slope of the "
     "affine/linear map, relative error invariant for multiplicative pairs, refused where the plain quantity is refused. Arithmetic: + - * / ** over (Measurement | Quantity | number) operand kinds in three unit "
     "spellings against written-out first-order formulas, plus 8 correlated expressions ((a+b)-a, (a*b)/a, a.to(u)-a, ...) whose uncertainty only comes out right if results stay correlated with their "
-    "operands. Notations: every string of the generated uncertainty grammar (plain, parenthesised, (v +/- e)eN, exponents on both parts, ± sign, leading-zero exponents, concise v(e) and v(e)eN, nan, with and "
-    "without unit and spaces) must parse to the measurement it denotes. Formats: 9 measurements x 14 specs; plain ones parse back.",
+    "operands. Notations: every string of the generated uncertainty grammar (plain, parenthesised, (v +/- e)eN, exponents on both parts, ± sign, leading-zero exponents, concise v(e) and v(e)eN, zero and nan written as value or as error under every exponent form, with and "
+    "without unit and spaces) must parse to the measurement it denotes. Formats: 13 measurements (incl. |value| << error, and exact zero errors at large and small scale) x 14 specs; plain ones parse back to within the digits printed.",
     "note": "Trusted: the `uncertainties` package as arithmetic engine (propagation formulas here are independent), the notation reader in this file. Random values over many decades are replaced by the fixed "
     "value/error alphabets; array-valued measurements are outside.",
     "ref": "DESIGN.md §4 C19",
